@@ -99,6 +99,7 @@ class Recorder:
     def __init__(self, progfiles, labels, blocks):
         self.ops = []
         self.count = 0
+        self.tracing = False
         self.progfiles = progfiles
         self.labels = labels
         self.blocks = blocks
@@ -231,38 +232,53 @@ class Recorder:
                         self.alias_blocks.add((base, pad))
         return self.tracer
 
-    def enable_by_count(self):
-        if self.count == 0:
+    def _on(self, f):
+        if not self.tracing:
+            self.tracing = True
             self.enabled_at = self.clock
-            self.ops.append('enbc 0')
-            f = sys._getframe(1)
             while f is not None:
                 f.f_trace = self.tracer
                 f = f.f_back
             sys.settrace(self.tracer)
-        else:
-            self.ops.append('enbc 0')
+
+    def _off(self, f):
+        if self.tracing:
+            self.tracing = False
+            sys.settrace(None)
+            while f is not None:
+                f.f_trace = None
+                f = f.f_back
+            if self.inflight:
+                self.midflight_disable = True
+                self.inflight.clear()
+            # disable() drops the pending line of every bytecode: those line events never become hits
+            for (lab, line) in self.slot.values():
+                self.dropped[(lab, line)] = self.dropped.get((lab, line), 0) + 1
+            self.slot.clear()
+            self.open.clear()
+            self.enabled_span += self.clock - self.enabled_at
+
+    def enable_by_count(self):
+        if self.count == 0:
+            self._on(sys._getframe(1))
+        self.ops.append('enbc 0')
         self.count += 1
 
     def disable_by_count(self):
         if self.count > 0:
             self.count -= 1
             if self.count == 0:
-                sys.settrace(None)
-                f = sys._getframe(1)
-                while f is not None:
-                    f.f_trace = None
-                    f = f.f_back
-                if self.inflight:
-                    self.midflight_disable = True
-                    self.inflight.clear()
-                # disable() drops the pending line of every bytecode: those line events never become hits
-                for (lab, line) in self.slot.values():
-                    self.dropped[(lab, line)] = self.dropped.get((lab, line), 0) + 1
-                self.slot.clear()
-                self.open.clear()
-                self.enabled_span += self.clock - self.enabled_at
+                self._off(sys._getframe(1))
         self.ops.append('disbc 0')
+
+    def enable(self):
+        # the raw switch: tracing on, the count untouched
+        self.ops.append('enable 0')
+        self._on(sys._getframe(1))
+
+    def disable(self):
+        self.ops.append('disable 0')
+        self._off(sys._getframe(1))
 
     def __enter__(self):
         self.enable_by_count()
@@ -317,6 +333,10 @@ def run_steps(prog, steps, prof, nss, funcs, on_snapshot, on_add=None):
             prof.enable_by_count()
         elif op == 'disbc':
             prof.disable_by_count()
+        elif op == 'enable_raw':
+            prof.enable()
+        elif op == 'disable_raw':
+            prof.disable()
         elif op == 'call':
             try:
                 results.append(repr(nss['prog_main.py'][prog['driver']](st[1])))
@@ -374,7 +394,7 @@ def run_case(case, delta):
         return g
     def renable_rec():
         if rec.count > 0:
-            rec.ops.append('enable 0')          # the model's raw enable: nothing changes while tracing is on
+            rec.enable()                        # the raw enable: nothing changes while tracing is on; switches it back on after a raw disable()
     nss, funcs = load_program(prog, {'tick': rec.tick, 'prof': rec, 'snap': (limited(rec.snapshot) if inner else (lambda: None)), 'renable': renable_rec})
     presession(case, funcs, blocks)
     rec.declare(funcs)
@@ -383,6 +403,8 @@ def run_case(case, delta):
     if rec.count:
         rec.count = 1
         rec.disable_by_count()
+    if rec.tracing:
+        rec.disable()
     oracle = {'%d:%d' % k: v for k, v in sorted(rec.counts.items())}
     alias = {'%d:%d' % k: v for k, v in sorted(rec.alias.items())}
     # ---- run B
@@ -428,6 +450,7 @@ def run_case(case, delta):
         finally:
             while p.enable_count > 0:
                 p.disable_by_count()
+            p.disable()
             CLIB.verif_clock_mode(0, 0)
     # NoCollision on the concrete hashes of this run
     # (computed from the code objects themselves, not from the profiler's own tables: those are under test)
